@@ -414,13 +414,21 @@ Proof. exact try_skip_unchanged_complete. Qed.
    FileHash.to_json / from_json and StepHash.to_json / from_json through cattrs' JSON converter
    (bytes as Base85, field names and order generated from the attrs classes); the text layer
    json.dumps / json.loads is exercised by the harness.  digest_json_ok: a digest is a byte string
-   of a whole number of 32-bit words (every SHA-256 value) or b"u"; fh_canonical: an unknown hash
+   (elements below 256), of any length; fh_canonical: an unknown hash
    is FileHash.unknown() (to_json stores NULL for it). *)
 Theorem C13_base85_round_trip :
   forall (alphabet : str) (n : nat) (b : str),
     alphabet_ok alphabet = true -> length b = (4 * n)%nat -> is_bytes b = true ->
     b85_decode alphabet (b85_encode alphabet b) = Some b.
 Proof. exact b85_round_trip. Qed.
+
+(* any length: a last group of 1-3 bytes is padded with zero bytes, its digits cut, and read back
+   with the digit 84 as padding *)
+Theorem C13_base85_round_trip_any_length :
+  forall (alphabet : str) (b : str),
+    alphabet_ok alphabet = true -> is_bytes b = true ->
+    b85_decode alphabet (b85_encode alphabet b) = Some b.
+Proof. exact b85_round_trip_all. Qed.
 
 Theorem C13_filehash_json_round_trip :
   forall h : fhash, fh_json_ok h = true -> fh_canonical h = true -> fh_from_json (fh_to_json h) = Some h.
